@@ -299,7 +299,11 @@ func runC16(c *Ctx) {
 		if sh.Name != "p1" && sh.Name != "p2" && !c.Thorough {
 			continue
 		}
-		forEachCarrier(c, sh, "c16x/", func(f string) bool { return f != "index_page" }, func(cc *carrier) {
+		forEachCarrier(c, sh, "c16x/", func(f string) bool {
+			// an index page between data pages is listed by the library along with them; whether
+			// "one header per data page" covers it is not what C16 is about: not judged
+			return !strings.HasPrefix(f, "index_page")
+		}, func(cc *carrier) {
 			c.Out.Count("cases", 1)
 			c.Out.Count("files_foreign_unsupported_feature", 1)
 			c.Out.Count("xfeature_"+cc.Feature, 1)
